@@ -100,6 +100,9 @@ func (s *State) ExpandMacros(program ast.Node) ast.Node {
 		}
 
 		evalEnv := extendMacroEnv(macro, args)
+		// The macro body runs under the session's limits: deadline and depth (it had none: max depth 0).
+		evalEnv.Context = s.Context
+		evalEnv.MaxDepth = s.MaxDepth
 
 		evaluated := evalEnv.Eval(macro.Body)
 
